@@ -50,8 +50,10 @@ type tendermintWALStore[V types.Hashable[H], H types.Hash, A types.Addr] struct 
 	// WAL cleanup needs to know whether any remaining height still references the file.
 	walHeightRefs map[pebblewal.NumWAL]int
 
-	// prunedUpToHeight is the inclusive watermark for discarded WAL recovery data.
-	prunedUpToHeight types.Height
+	// firstLiveHeight is the exclusive watermark for discarded WAL recovery data: entries below
+	// it have been pruned. Its zero value means that nothing has been pruned yet, so entries of
+	// height 0 are kept like any other.
+	firstLiveHeight types.Height
 
 	// pendingRecords are only visible through LoadAllEntries after a successful flush.
 	pendingRecords           []walRecordEnvelope[V, H, A]
@@ -101,6 +103,12 @@ func NewTendermintWALStore[V types.Hashable[H], H types.Hash, A types.Addr](
 	if err != nil {
 		return nil, fmt.Errorf("NewTendermintWALStore: load prune watermark: %w", err)
 	}
+	// The watermark file stores the highest pruned height; it is absent (read as 0) until the
+	// first cleanup, which happens only after many heights have been pruned.
+	var firstLiveHeight types.Height
+	if prunedUpToHeight > 0 {
+		firstLiveHeight = prunedUpToHeight + 1
+	}
 
 	manager, err := pebblewal.Init(pebblewal.Options{
 		Primary:            dir,
@@ -124,7 +132,7 @@ func NewTendermintWALStore[V types.Hashable[H], H types.Hash, A types.Addr](
 		entriesByHeight:  make(map[types.Height][]wal.Entry[V, H, A]),
 		walFilesByHeight: make(map[types.Height]walNumSet),
 		walHeightRefs:    make(map[pebblewal.NumWAL]int),
-		prunedUpToHeight: prunedUpToHeight,
+		firstLiveHeight:  firstLiveHeight,
 	}
 
 	if err := walStore.loadExistingEntries(logs); err != nil {
@@ -207,7 +215,11 @@ func (s *tendermintWALStore[V, H, A]) removeObsoleteWALFiles(
 		return nil
 	}
 
-	if err := writePruneWatermark(s.wal.dir, s.prunedUpToHeight); err != nil {
+	if s.firstLiveHeight == 0 {
+		// Nothing has been pruned, so no WAL file can have become obsolete.
+		return nil
+	}
+	if err := writePruneWatermark(s.wal.dir, s.firstLiveHeight-1); err != nil {
 		return err
 	}
 
@@ -251,7 +263,7 @@ func (s *tendermintWALStore[V, H, A]) DeleteWALEntries(height types.Height) erro
 	if s.closed {
 		return errors.New("DeleteWALEntries: WAL is closed")
 	}
-	if height <= s.prunedUpToHeight {
+	if height < s.firstLiveHeight {
 		return nil
 	}
 
@@ -283,7 +295,7 @@ func (s *tendermintWALStore[V, H, A]) SetWALEntry(entry wal.Entry[V, H, A]) erro
 	if err := record.setEntry(entry); err != nil {
 		return err
 	}
-	if entry.GetHeight() <= s.prunedUpToHeight {
+	if entry.GetHeight() < s.firstLiveHeight {
 		return nil
 	}
 	s.pendingRecords = append(s.pendingRecords, record)
